@@ -42,6 +42,14 @@ def run(ctx):
         for nfs in (0, 1, 3):
             for mfe in range(n0, n0 + 2 * D + nfs + 7):
                 base.append(job(D, "lin", mode, nfs, mfe, seeds[0]))
+    # Sto-BADS incumbent rule with a single final sample: the supplementary entry must still be an observation
+    for (mode, D), n0 in sorted(ninit.items()):
+        if mode == "auto" or (q and D == 2 and mode == "decl"):
+            continue
+        for mfe in range(n0, n0 + 26, 1 if D == 1 else 2):
+            base.append(job(D, "lin", mode, 1, mfe, seeds[0], opts={"stobads": True}))
+    # uncertainty_handling given explicitly as False with a noisy target: the start-point test still decides
+    base += [job(D, "lin", "auto", nfs, ninit[("auto", D)] + 9, seeds[0], opts={"uncertainty_handling": v}) for D in (1, 2) for nfs in (1, 3) for v in (False, 0)]
     st = explore(base, ["noise"], 0, sink, name="budget-window/b0")
     # (b) noise scripts <= b on medium runs: a LOW outlier makes an early iterate look best (swap to an earlier iterate)
     med = [job(D, g, m, nfs, 62 + 8 * D, s, target=t) for D in ((1,) if q else (1, 2)) for g in ("lin", "log") for m in ("auto", "decl", "spec")
@@ -63,6 +71,10 @@ def run(ctx):
             j = dict(D=D, geo="lin", x0="in", mode="det", target="sphere_in", cons=None, seed=seeds[0], monitors=MON,
                      opts={"max_fun_evals": 45, "noise_final_samples": 2, "tol_noise": 0.0}, script={"second": delta}, tol_noise_check=0.0)
             cells.append(j)
+        for delta in (0.0, 1.0):
+            for v in (False, 0):
+                cells.append(dict(D=D, geo="lin", x0="in", mode="det", target="sphere_in", cons=None, seed=seeds[0], monitors=MON,
+                                  opts={"max_fun_evals": 45, "noise_final_samples": 2, "uncertainty_handling": v}, script={"second": delta}, tol_noise_check=eps * 1e-3))
         for delta in (0.4, 0.6):
             j = dict(D=D, geo="lin", x0="in", mode="det", target="sphere_in", cons=None, seed=seeds[0], monitors=MON,
                      opts={"max_fun_evals": 45, "noise_final_samples": 2, "tol_noise": 0.5}, script={"second": delta}, tol_noise_check=0.5)
